@@ -49,6 +49,9 @@ PROPS['C09'] = dict(
         ('RegionFacts', 'pointer_build_restores_position', 'Pointer (build): likewise.'),
         ('RegionFacts', 'select_first_success', 'Select: the result (value and end position) is that of the first alternative that succeeds FROM THE STARTING POSITION; failed alternatives leave no trace.'),
         ('RegionFacts', 'select_explicit_escapes', 'Select re-raises ExplicitError.'),
+        ('RegionFacts', 'select_build_first_success', 'Select when BUILDING: what reaches the output is exactly what the first alternative that builds the value produced in a stream of its own; the value handed in is returned.'),
+        ('RegionFacts', 'select_build_failed_leave_no_trace', 'Alternatives that failed in front of the one that builds (whatever they had written before failing) change nothing: the Select builds as that alternative alone.'),
+        ('RegionFacts', 'select_build_explicit_escapes', 'Select re-raises ExplicitError when building too.'),
         ('RegionFacts', 'greedy_stops_clean', 'GreedyRange: a failing element leaves the stream at the end of the last success.'),
         ('RegionFacts', 'greedy_step', 'GreedyRange: the elements are the successive successes, each from the end of the previous one.'),
         ('RegionFacts', 'greedy_explicit_escapes', 'GreedyRange re-raises ExplicitError.'),
@@ -64,6 +67,11 @@ PROPS['C09'] = dict(
 Example C09_ex_select_partial :
   parse_at (CSequence [CSelect [CSequence [CFormat Big FB; CConst (VInt 7) (CFormat Big FB)]; CFormat Big FB]; CTell])
            [] [x05; x06; x07] 0 = Ok (VList [VInt 5; VInt 1], 1%Z).
+Proof. vm_compute; reflexivity. Qed.
+(* the first alternative writes four bytes before its second field fails; none of them is in the output *)
+Example C09_ex_select_build_partial :
+  build_bytes (CSelect [CSequence [CFormat Big FL; CFormat Big FB]; CSequence [CFormat Big FB; CFormat Big FH]]) (VList [VInt 1; VInt 300]) [] =
+    Ok (VList [VInt 1; VInt 300], [x01; x01; x2c]).
 Proof. vm_compute; reflexivity. Qed.
 ''')
 
@@ -86,12 +94,21 @@ PROPS['C13'] = dict(
         ('ValidFacts', 'enum_build_unknown_label', 'Enum: unknown labels are rejected on build.'),
         ('ValidFacts', 'mapping_build_unknown', 'Mapping: unknown objects are rejected on build.'),
         ('ValidFacts', 'mapping_parse_unknown', 'Mapping: unknown encoded values are rejected on parse.'),
+        ('ValidFacts', 'flags_string_is_union', "FlagsEnum, spelling 'p|q|...': the encoded integer is the bitwise union of the masks of the named labels, folded left to right; an unknown label refuses the whole spelling."),
+        ('ValidFacts', 'flags_string_bits', 'FlagsEnum: bit n of the encoded integer is set exactly when the mask of one of the named labels has it - repeats and overlapping masks add nothing.'),
+        ('ValidFacts', 'flags_string_order_and_repeats', 'FlagsEnum: two spellings that name the same labels (any order, any repetition) encode to the same integer.'),
         ('ValidFacts', 'explicit_escapes_any_nest', 'An Error field aborts parsing through ANY nest (unbounded depth) of Select / Optional-like Select / GreedyRange / Peek / Renamed.'),
     ],
     examples='''
 Example C13_ex_error_in_optional_in_greedyrange :
   parse_at (CGreedyRange (CSelect [CPeek (CSelect [CFormat Big FL; CError]); CPass])) [] [x01] 0 = Err EExplicit (Some []).
 Proof. vm_compute; reflexivity. Qed.
+(* r=1, w=2, rw=3: 'r|rw' is 3 (not 1+3), 'r|r' is 1 (not 2), 'w | r' is 3 *)
+Example C13_ex_flags_overlap :
+  let t := [([x72], 1%Z); ([x77], 2%Z); ([x72; x77], 3%Z)] in
+  flags_encode t (VStr [114; 124; 114; 119]%N) [] = Ok (VInt 3) /\ flags_encode t (VStr [114; 124; 114]%N) [] = Ok (VInt 1) /\\
+  flags_encode t (VStr [119; 32; 124; 32; 114]%N) [] = Ok (VInt 3) /\ flags_encode t (VStr [114; 124; 120]%N) [] = Err EMapping (Some []).
+Proof. vm_compute; repeat split; reflexivity. Qed.
 Example C13_ex_const :
   build_bytes (CConst (VInt 255) (CFormat Big FB)) (VInt 0) [] = Err EConst (Some []) /\\
   build_bytes (CConst (VInt 255) (CFormat Big FB)) VNone [] = Ok (VInt 255, [xff]).
